@@ -19,12 +19,16 @@ func VerifC17_DatadogBatches() {
 		}
 	}
 	seen := map[string]int{}
+	var batches []*timeSeries
 	d.processMetrics(100, mm, func(ts *timeSeries) {
+		batches = append(batches, ts) // SendMetricsAsync serialises a batch after it was handed over
+	})
+	for _, ts := range batches {
 		for _, m := range ts.Series {
 			seen[m.Metric]++
 			verifAssert(m.Host == "h" && len(m.Tags) == 1 && m.Tags[0] == "t:1", "datadog: host and tags carried on every series")
 		}
-	})
+	}
 	for i := 0; i < 4; i++ {
 		want := 0
 		if i < k {
